@@ -41,6 +41,9 @@ pub struct GenOpts {
     pub max_blocks: usize,
     /// Force a particular origin choice (None = seeded choice).
     pub high_origin: bool,
+    /// Append a pad and a few statements (with `.break`s) so that the image extends beyond
+    /// 0xFE00: statements, labels and predefined breakpoints outside user space.
+    pub tail_beyond_user: bool,
 }
 
 impl Program {
@@ -111,6 +114,17 @@ impl Program {
         if style == 3 {
             out.push_str("; generated program\n\n");
         }
+        // A `.break` in front of the first statement may also stand in front of `.orig`
+        let breaks_before_orig = self.orig.is_some()
+            && style != 0
+            && self.stmts.first().is_some_and(|s| s.breaks > 0)
+            && rng.coin();
+        if breaks_before_orig {
+            for _ in 0..self.stmts[0].breaks {
+                out.push_str(&case(&mut rng, style, ".break"));
+                out.push('\n');
+            }
+        }
         if let Some(orig) = self.orig {
             let dir = case(&mut rng, style, ".orig");
             if rng.coin() {
@@ -119,8 +133,8 @@ impl Program {
                 out.push_str(&format!("{} 0x{:x}\n", dir, orig));
             }
         }
-        for s in &self.stmts {
-            for _ in 0..s.breaks {
+        for (si, s) in self.stmts.iter().enumerate() {
+            for _ in 0..(if si == 0 && breaks_before_orig { 0 } else { s.breaks }) {
                 out.push_str(&case(&mut rng, style, ".break"));
                 out.push('\n');
             }
@@ -806,6 +820,15 @@ impl<'a> Builder<'a> {
 }
 
 fn random_string(rng: &mut Rng) -> (String, usize) {
+    if rng.chance(1, 12) {
+        // A long line with multi-byte characters at assorted byte positions
+        let n = 12 + rng.usize_below(24);
+        let mut text = String::new();
+        for _ in 0..n {
+            text.push(*rng.pick(&['a', 'T', ' ', 'é', '°', 'ü', 'ÿ', 'x', '1', ':']));
+        }
+        return (text, n + 1);
+    }
     let n = rng.usize_below(9);
     let mut text = String::new();
     let mut words = 1; // terminator
@@ -1094,6 +1117,27 @@ fn finish(
         stmts[data_start + f.cell].text = format!(".fill x{:04X}", addr);
     }
     program.stmts = stmts;
+    if opts.tail_beyond_user {
+        let end = program.origin() as usize + program.n_words();
+        if end < 0xFE00 {
+            let pad = 0xFE00 - end - 2;
+            program.stmts.push(Stmt {
+                labels: vec!["Pad_to_top_1".to_string()],
+                text: format!(".blkw x{:X}", pad),
+                words: pad,
+                breaks: 0,
+            });
+            for (i, text) in ["and r0, r0, #0", "add r0, r0, #1", ".fill x1234", "not r1, r1", ".fill xF025"].iter().enumerate() {
+                program.stmts.push(Stmt {
+                    labels: if i % 2 == 0 { vec![format!("Tail_{}", i)] } else { vec![] },
+                    text: text.to_string(),
+                    words: 1,
+                    breaks: if i == 1 || i == 3 { 1 } else { 0 },
+                });
+            }
+            program.features.push("tail_beyond_user_space");
+        }
+    }
     program
 }
 
